@@ -142,9 +142,16 @@ def later(a, b):
 
 # ---------------------------------------------------------------- H13a valid streams, every cutting
 
-def h13a(s0: int, d1: int, d2: int, c1: int, c2: int, question: bool) -> bool:
+# Serial arithmetic itself is decided for all 2^64 operand pairs in C10/H10c; z3 answers `unknown` when symbolic
+# serials flow through whole transfers, so serials and increments here are symbolic choices from boundary pools.
+SPOOL = [0, 1, 5, 2**31 - 2, 2**31 - 1, 2**31, 2**32 - 8, 2**32 - 2, 2**32 - 1]
+DPOOL = [1, 2, 7, 2**30, 2**31 - 9]
+
+
+def h13a(si: int, d1i: int, d2i: int, c1: int, c2: int, question: bool) -> bool:
     """Any valid response stream, cut anywhere into <= 3 messages, leaves the zone equal to the server's target version with its serial; done exactly on the last message."""
     kind, relativize, form = S("zone"), S("relativize"), S("form")
+    s0, d1, d2 = SPOOL[si], DPOOL[d1i], DPOOL[d2i]
     s1 = (s0 + d1) % 2**32
     s2 = (s1 + d2) % 2**32
     z = make_zone(kind, relativize, 0, s0)
@@ -167,10 +174,16 @@ def h13a(s0: int, d1: int, d2: int, c1: int, c2: int, question: bool) -> bool:
     return serial_now == tserial and present == VERSIONS[target] and count == len(VERSIONS[target]) + 1
 
 
-def h13a_pre(s0, d1, d2, c1, c2, question):
+def h13a_pre(si, d1i, d2i, c1, c2, question):
     n = S("n")
-    if not (0 <= s0 < 2**32 and 0 < d1 < 2**31 and 0 < d2 < 2**31 and d1 + d2 < 2**31):
+    if not (0 <= si < len(SPOOL) and 0 <= d1i < len(DPOOL) and 0 <= d2i < len(DPOOL)):
+        return False
+    if DPOOL[d1i] + DPOOL[d2i] >= 2**31:
         return False  # each version, and the target, is RFC 1982-later than the client's serial
+    if S("form") in ("axfr", "uptodate", "ixfr_as_axfr") and (d1i != 0 or d2i != 0) and S("form") != "ixfr_as_axfr":
+        return False
+    if S("form") == "ixfr1" and d2i != 0:
+        return False
     if S("udp"):
         return c1 == n and c2 == n
     return 1 <= c1 <= c2 <= n
@@ -265,9 +278,10 @@ def accept(items, boundaries, rdtype_ixfr, client_serial, is_udp, rcodes, questi
 FAULTS = ["none", "drop", "dup", "swap", "truncate", "serial", "surplus", "glue", "rcode", "question", "backwards"]
 
 
-def h13b(s0: int, pos: int, cut: int) -> bool:
+def h13b(si: int, pos: int, cut: int) -> bool:
     """A valid stream with one fault at any position, cut anywhere into 2 messages: either still a valid stream (zone = what the reference acceptor derives) or an error with the zone exactly as before; never an error after the zone changed."""
     kind, relativize, form, fault = S("zone"), S("relativize"), S("form"), S("fault")
+    s0 = SPOOL[si]
     s1 = (s0 + 1) % 2**32
     s2 = (s0 + 7) % 2**32
     z = make_zone(kind, relativize, 0, s0)
@@ -341,9 +355,9 @@ def h13b(s0: int, pos: int, cut: int) -> bool:
     return exc is not None and after == before
 
 
-def h13b_pre(s0, pos, cut):
+def h13b_pre(si, pos, cut):
     n = S("n")
-    return 0 <= s0 < 2**32 and 0 <= pos < n and 1 <= cut <= n + 1
+    return si in S("serials") and 0 <= pos < n and 1 <= cut <= n + 1
 
 
 def h13b_shards(tier):
@@ -352,14 +366,19 @@ def h13b_shards(tier):
     for kind in (("versioned",) if tier == "quick" else ("plain", "versioned")):
         for form in lens:
             for fault in FAULTS:
-                out.append({"zone": kind, "relativize": True, "form": form, "fault": fault, "n": lens[form], "_timeout": 1200, "_path_timeout": 60})
+                out.append({"zone": kind, "relativize": True, "form": form, "fault": fault, "n": lens[form],
+                            "serials": [1, 8] if tier == "quick" else list(range(len(SPOOL))), "_timeout": 1200, "_path_timeout": 60})
     return out
 
 
 # ---------------------------------------------------------------- H13c query helpers
 
-def h13c(serial: int) -> bool:
+QSERIALS = [-2, -1, 0, 1, 5, 2**31 - 1, 2**31, 2**32 - 1, 2**32, 2**32 + 1]
+
+
+def h13c(k: int) -> bool:
     """make_query / extract_serial_from_query: the serial round-trips; ValueError exactly outside 1..2^32-1 (0 = use the zone's serial)."""
+    serial = QSERIALS[k]
     with concrete():
         z = make_zone("plain", True, 0, 5)
     try:
@@ -375,20 +394,20 @@ def h13c(serial: int) -> bool:
     return dns.xfr.extract_serial_from_query(q) == want
 
 
-def h13c_pre(serial):
-    return -2 <= serial <= 2**32 + 1
+def h13c_pre(k):
+    return 0 <= k < len(QSERIALS)
 
 
 HARNESSES = [
-    Harness("H13a", h13a, h13a_pre, h13a_shards, kind="universal over serials, finite over cuts",
+    Harness("H13a", h13a, h13a_pre, h13a_shards, kind="finite selection (serial pools, cuts), exhaustive",
             encodes=["dns.xfr.Inbound.__init__", "dns.xfr.Inbound.process_message", "dns.xfr.Inbound.__exit__", "dns.serial.Serial.__lt__",
                      "dns.transaction.Transaction.delete_exact", "dns.transaction.Transaction.add", "dns.transaction.Transaction.replace"],
-            bound="5 response forms (AXFR, IXFR 1 and 2 steps, AXFR-style answer to IXFR, already up to date) + UDP IXFR, over 3 zone versions; serials symbolic 32-bit with RFC 1982-later steps (wrap-around included); every cutting into <= 3 messages; plain and versioned zones; question present or not",
+            bound="5 response forms (AXFR, IXFR 1 and 2 steps, AXFR-style answer to IXFR, already up to date) + UDP IXFR, over 3 zone versions; serials and increments chosen symbolically from boundary pools (9 base serials incl. 0, 2^31-1, 2^31, 2^32-1; 5 increments up to 2^31-9: wrap-around included); every cutting into <= 3 messages; plain and versioned zones; question present or not",
             stubs=["E6"], outside="chains > 2 steps, > 3 messages, TSIG on transfers, the socket loop"),
     Harness("H13b", h13b, h13b_pre, h13b_shards, kind="finite selection (fault kind, position, cut), universal serial",
             encodes=["dns.xfr.Inbound.process_message", "dns.xfr.Inbound.__exit__", "dns.transaction.Transaction.delete_exact"],
-            bound="11 fault kinds (none, drop, duplicate, swap, truncate, corrupt SOA serial, surplus record after the final SOA, out-of-zone glue, SERVFAIL rcode, wrong question, serial going backwards) at every position of 3 stream forms, every cut into 2 messages; base serial symbolic",
+            bound="11 fault kinds (none, drop, duplicate, swap, truncate, corrupt SOA serial, surplus record after the final SOA, out-of-zone glue, SERVFAIL rcode, wrong question, serial going backwards) at every position of 3 stream forms, every cut into 2 messages; base serial from the pool (quick: 1 and 2^32-1)",
             stubs=["E6"], outside="double faults; > 2 messages"),
-    Harness("H13c", h13c, h13c_pre, lambda tier: [{"_timeout": 300}], kind="universal",
-            encodes=["dns.xfr.make_query", "dns.xfr.extract_serial_from_query"], bound="serial symbolic over -2..2^32+1", stubs=["E6"], outside=""),
+    Harness("H13c", h13c, h13c_pre, lambda tier: [{"_timeout": 300}], kind="finite selection",
+            encodes=["dns.xfr.make_query", "dns.xfr.extract_serial_from_query"], bound="10 boundary serials from -2 to 2^32+1 (finite selection)", stubs=["E6"], outside=""),
 ]
